@@ -197,7 +197,8 @@ def sanctioned_worker_exits(F, sp):
             ds = [d for d in w.defs.get(v.key, []) if d[1] == 'call']
             if len(ds) == 1:
                 src = w.call_at(ds[0][0])
-        if src is not None and src.is_('JobBroker::pop'):
+        import roles
+        if src is not None and src in roles.calls_role(F, w, 'pop'):
             out.append(('no-more-work', w.branch(c, True)))
     for c in w.calls_to('HasDiscoveries::matches'):
         out.append(('finish_when', w.branch(c, True)))
@@ -220,7 +221,8 @@ def sanctioned_worker_exits(F, sp):
                 out.append(('shutdown-flag', sw.edges_for(True)))
     for c in w.calls_to('Receiver::recv'):
         out.append(('control-channel-closed', w.branch(c, 'Err')))
-    for c in w.calls_to('JobBroker::is_open'):
+    import roles
+    for c in roles.calls_role(F, w, 'is_open'):
         out.append(('market-closed', w.branch(c, False)))
     return out
 
@@ -296,7 +298,8 @@ def r5_asserts(ctx, F):
         with ctx.rule(rule, strat):
             b = F.body('<%s<M> as checker::Checker<M>>::is_done' % ck)
             ctx.touched(b)
-            closed = b.calls_to('JobBroker::is_closed')
+            import roles
+            closed = roles.calls_role(F, b, 'is_closed')
             eqs = [sw for sw in b.switches if sw.on.kind == 'bin']
             eq_ok = False
             for (bb, si, st) in b.assigns(lambda st: st['rv']['k'] == 'bin'):
